@@ -82,7 +82,10 @@ pub fn new_boxed<T: MaybeDynSized<Metadata = usize> + ?Sized>(
 /// Clones a [`MaybeDynSized`] by calling [`new_boxed`].
 #[must_use]
 pub fn clone_dyn<T: MaybeDynSized<Metadata = usize> + ?Sized>(tag: &T) -> Box<T> {
-    new_boxed(tag.header().clone(), &[tag.payload()])
+    // `payload()` also includes the padding bytes at the end of the tag, which
+    // do not belong to its (reported) size.
+    let payload = &tag.payload()[..tag.header().payload_len()];
+    new_boxed(tag.header().clone(), &[payload])
 }
 
 #[cfg(test)]
